@@ -16,7 +16,40 @@ def _lookup(sg):
     except Exception as e:  # the analyzer must answer for a valid crystal
         return {"sg": sg, "error": "%s: %s" % (type(e).__name__, e), "letters": c["letters"]}
     o.update({"ev": "info", "sg": sg, "letters": c["letters"], "natoms": len(c["atoms"])})
+    # history: the tables are module-level objects that every analysis reads; after ordinary use (full analyses of several
+    # crystals of this group, each also with its species interchanged so that other normalizers are selected) the rows of
+    # this group are exported again and judged again if they differ from the rows at import
+    used = 0
+    for stream in range(N_USE[_TIER[0]]):
+        cc = c if stream == 0 else symobs.find_crystal(sg, k0=20 * stream)
+        if cc is None:
+            continue
+        at = cc["atoms"]
+        nums = sorted(set(at.numbers.tolist()))
+        variants = [at]
+        if len(nums) > 1:
+            sw = at.copy()
+            sw.numbers = [nums[len(nums) - 1 - nums.index(z)] for z in at.numbers]
+            variants.append(sw)
+        for v in variants:
+            try:
+                an = symobs.analyzer(v)
+                an.get_conventional_system()
+                an.get_wyckoff_sets_conventional()
+                an.get_primitive_system()
+                used += 1
+            except Exception:
+                pass
+    try:
+        o["rows_after_use"] = export_data.group_rows(sg)
+    except Exception as e:
+        o["rows_error"] = "%s: %s" % (type(e).__name__, str(e)[:200])
+    o["analyses_before_reexport"] = used
     return o
+
+
+N_USE = {"quick": 3, "thorough": 8}
+_TIER = ["quick"]
 
 
 def run(tier):
@@ -64,7 +97,17 @@ def run(tier):
     # ---- binding of the analyzer's look-ups: one crystal per group
     recs = []
     skipped = 0
+    _TIER[0] = tier
+    after = {}
+    n_used = 0
     for o in pmap(_lookup, range(1, 231)):
+        if "rows_error" in o:
+            run.violation("table-after-use sg=%d unreadable" % o["sg"], "tables of group %d cannot be read after ordinary analyses: %s" % (
+                o["sg"], o["rows_error"]), {"sg": o["sg"]})
+        rows = o.pop("rows_after_use", None)
+        n_used += o.pop("analyses_before_reexport", 0)
+        if rows is not None and rows != tab[o["sg"] - 1]:
+            after[o["sg"]] = rows
         if "skip" in o:
             skipped += 1
             continue
@@ -74,6 +117,24 @@ def run(tier):
         o["tid"] = len(recs) + 1
         recs.append(o)
     run.notes["lookup_crystals_skipped"] = skipped
+    run.notes["analyses_run_before_tables_reexported"] = n_used
+    run.notes["groups_whose_rows_changed_through_use"] = sorted(after)
+    if after:
+        # the rows that changed through use are judged by the same spec as the rows at import
+        tab2 = [after.get(g["sg"], g) for g in tab]
+        sd2 = os.path.join(d, "symdata_after_use.json")
+        import json as _json
+
+        _json.dump(tab2, open(sd2, "w"))
+        res2 = tlc.run("SymTables.tla", "SymTables.cfg", env={"SYMDATA": sd2, "REFGROUPS": refgroups}, timeout=1500)
+        run.add_model(res2, "SymTables on the tables as they are after ordinary use (%d groups changed)" % len(after))
+        before_fail = {(kind, sg, k, clause) for kind, sg, k, clause in res.printed("FAIL")}
+        for kind, sg, k, clause in res2.printed("FAIL"):
+            if (kind, sg, k, clause) in before_fail or sg not in after or clause.startswith("HARNESS"):
+                continue
+            run.violation("after-use %s sg=%d idx=%d clause=%s" % (kind, sg, k - 1, clause),
+                          "after ordinary analyses of crystals of group %d the built-in table row (%s %d) fails %s; it did not at import" % (
+                              sg, kind, k - 1, clause), {"sg": sg, "rows_at_import": tab[sg - 1], "rows_after_use": after[sg]})
     tp = os.path.join(d, "info.ndjson")
     dump_ndjson(tp, recs)
     env["TRACE_FILE"] = tp
